@@ -109,3 +109,26 @@ Lemma guarded_present :
   && forallb (fun n => existsb (fun i => match i_self i with TPath m _ _ => String.eqb m n | _ => false end) collect_impls)
              ["Cell"; "RefCell"; "Static"] = true.
 Proof. vm_compute. reflexivity. Qed.
+
+(** *** Impl headers keep the brand (unsize!) *)
+Lemma impl_brand_check : forallb impl_args_brand_ok impls = true.
+Proof. vm_compute. reflexivity. Qed.
+
+Lemma impl_brand_lifted : forall i, In i impls -> impl_args_brand_ok i = true.
+Proof. exact (proj1 (forallb_forall _ _) impl_brand_check). Qed.
+
+Lemma unsize_impls_present :
+  map (fun i => match i_self i with TPath n _ _ => n | _ => "?" end) (brand_carrying_impls "__CoercePtrInternal" impls)
+  = ["Gc"; "GcWeak"].
+Proof. vm_compute. reflexivity. Qed.
+
+(** The re-branding header [impl<'gc, 'u, T, U: ?Sized, K> __CoercePtrInternal<Gc<'u, U>> for Gc<'gc, T, K>] fails. *)
+Definition rebranding_impl : impl_hdr :=
+  {| i_unsafe := true; i_neg := false;
+     i_g := {| g_lts := ["'gc"; "'u"]; g_tps := []; g_consts := []; g_where := [] |};
+     i_trait := "__CoercePtrInternal"; i_trait_lts := [];
+     i_trait_args := [TPath "Gc" [LNamed "'u"] [TParam "U"]];
+     i_self := TPath "Gc" [LNamed "'gc"] [TParam "T"; TParam "K"]; i_file := "unsize.rs"; i_cfg := [];
+     i_consts := [] |}.
+Lemma rebranding_impl_fails : impl_args_brand_ok rebranding_impl = false.
+Proof. vm_compute. reflexivity. Qed.
